@@ -843,6 +843,41 @@ func exec(line string) (out, label string, res *result) {
 	case ws[0] == "resetconcfld" && len(ws) == 4:
 		o, l := doConcFld(ws)
 		return o, l, nil
+	case ws[0] == "setuserid" && len(ws) == 3:
+		u, ok := parseI32(ws[1])
+		if !ok || !P.have || !reIdent.MatchString(ws[2]) {
+			return "bad-op", "bad-op", nil
+		}
+		var err error
+		o := hx.CallSync(func() string { err = cache.SetUserID(ptttype.UID(u), idOf(ws[2])); return "" })
+		if o == "PANIC" {
+			pendingFails = append(pendingFails, pending{"crash:invalid-slot", line + ": panic: " + hx.LastPanic})
+			P.snapshot()
+			return "PANIC " + observe2(u), "setuserid:PANIC", nil
+		}
+		if err == nil && inArr(u) {
+			names[u] = ws[2]
+			namesDirty = true
+		}
+		// oracle: renaming / re-assigning a slot moves no balance: SHM money and .PASSWDS exactly as before
+		now := shmNow()
+		for k := range now {
+			if now[k] != P.prevShm[k] {
+				d := int64(0)
+				if f, ok := readFile(); ok {
+					d, _ = diskMoney(f, int64(k+1))
+				}
+				pendingFails = append(pendingFails, pending{"mismatch:shm-disk", fmt.Sprintf(
+					"%s: Shm.Money of slot %d went from %d to %d although no money operation was made; .PASSWDS money=%d, plain arithmetic says %d",
+					line, k+1, P.prevShm[k], now[k], d, P.bal[k+1])})
+				break
+			}
+		}
+		if f, ok := readFile(); ok && P.prevOK {
+			P.frameRange(opCount, line, f, -1, -1)
+		}
+		P.snapshot()
+		return errClass(err) + " " + observe2(u), "setuserid:" + slotClass(u) + ":" + errClass(err), nil
 	case ws[0] == "chemail" && len(ws) == 3:
 		u, ok := parseI32(ws[1])
 		if !ok || !P.have || !reEmail.MatchString(ws[2]) {
@@ -1982,6 +2017,7 @@ func main() {
 		"registrations: `reset ... free=<slots>` leaves those slots without a user id (their SHM/disk money poked to 0, a leftover balance, or only one of the two), `newuser id startMoney` = ptt.SetupNewUser, the slot it got is observed in the SHM user hash and written into the op line together with the record; " +
 		"loader: `config 0|1` sets ptttype.USE_COOLDOWN for the history, `loaduhash 0` = Shm.Reset()+cache.LoadUHash() (fresh start), `loaduhash 1` = cache.LoadUHash() on the live segment (on-the-fly), `pokerec u id money` = an external edit of a record (owner change / money only / vacated); fresh starts on tables with balances, reloads after owner changes, followed by credits, debits, whole-record writes and registrations, under both configuration values; " +
 		"account expiry: `age u days perm` edits LastLogin/UserLevel of a record, `expire id m` = ptt.SetupNewUser with a stale .fresh (on a full table this runs tryCleanUser -> checkAndExpireAccount -> killUser); credited accounts that expire (unregistered, registered, last slot, balance 0), accounts inside the grace range, exempt accounts, slot 1, a table with a free slot (no clean-up), then reads, a credit and a restart; every slot is judged after the sweep; " +
+		"renames: `setuserid u id` = cache.SetUserID on occupied slots (same owner with corrected case, another id, invalid slots) between credits, debits, reads and whole-record writes: no balance may move; " +
 		"field writers: `chemail u text` = ptt.ChangeEmail between money operations (only the Email field of that record may change); " +
 		"malformed stream: missing/short/long/torn .PASSWDS (recorded, not judged), ill-formed op lines. nontrivial = set/de/get that reached the real function; overflow and MoneyOf(invalid) cases are recorded and compared with the model, not judged"
 	if run.Replay != "" {
